@@ -52,7 +52,7 @@ def seeds_expected(prop: str) -> list[dict]:
 
 
 def _verdict(prop, root, ov):
-    from check import run_property
+    from check import decide_property as run_property
     rep = run_property(prop, "quick", root, overlay=ov)
     r, u = rep.new_refuted(), rep.undecided()
     if r:
